@@ -314,6 +314,11 @@ func (e *CEnv) ident(name string) (Val, error) {
 					v.T = fv.Type().(*types.Pointer).Elem()
 					return v, nil
 				}
+				if _, ok := ptrToStruct(fv.Type()); ok && pv.Term != "" {
+					// a captured struct variable lives on the heap: the name denotes (a pointer to) that object
+					pv.T = fv.Type()
+					return pv, nil
+				}
 				return Val{}, fmt.Errorf("free variable %s has no cell", name)
 			}
 		}
@@ -1230,6 +1235,17 @@ func (e *CEnv) callExpr(x *CExpr) (Val, error) {
 			g = c.ghostInit(lg)
 		}
 		return Val{T: cht.Elem(), Term: sel(g, as[0].Term)}, nil
+	case "calls":
+		// calls(Name): how many calls named Name this function has executed so far
+		if len(x.Args) != 1 || x.Args[0].Op != "ident" {
+			return Val{}, fmt.Errorf("calls(Name)")
+		}
+		c.ghostSorts["calls"] = "(Array Int Int)"
+		g, ok := e.st.ghost["calls"]
+		if !ok {
+			g = c.ghostInit("calls")
+		}
+		return Val{T: tInt, Term: sel(g, fmt.Sprint(callNameID(x.Args[0].Name)))}, nil
 	case "sent", "received":
 		as, err := evalArgs()
 		if err != nil {
@@ -1428,6 +1444,13 @@ func (e *CEnv) addLoc(ms *ModSet, loc *CExpr) error {
 		name, sort := c.elemHeap(et)
 		c.heapSorts[name] = sort
 		ms.whole[name] = true
+		return nil
+	}
+	if loc.Op == "call" && loc.Name == "calls" {
+		if len(loc.Args) != 1 || loc.Args[0].Op != "ident" {
+			return fmt.Errorf("calls(Name)")
+		}
+		ms.callNames = append(ms.callNames, callNameID(loc.Args[0].Name))
 		return nil
 	}
 	if loc.Op == "call" && loc.Name == "allMapsLike" {
